@@ -242,6 +242,67 @@ func robustHandle(c map[string]J) map[string]J {
 		}
 		return map[string]J{"status": "ok", "input": "?- X is " + expr + "."}
 	}
+	if c["kind"] == "collect" || c["kind"] == "order" {
+		// the value(s) written in the goal, and reached through variables bound by earlier goals
+		var direct, ind, pres []string
+		ok := true
+		for i, a := range c["args"].([]J) {
+			t := shapeText[a.(string)]
+			if a == "app_chars" || a == "app_cells" {
+				ok = false
+			}
+			direct = append(direct, strings.ReplaceAll(t, "_", fmt.Sprintf("U%d", i+1)))
+			if x, has := shapeIndirect[a.(string)]; has {
+				pres = append(pres, strings.ReplaceAll(x[0], "%d", fmt.Sprint(i+1)))
+				ind = append(ind, strings.ReplaceAll(x[1], "%d", fmt.Sprint(i+1)))
+			} else {
+				pres = append(pres, fmt.Sprintf("T%d = %s", i+1, strings.ReplaceAll(t, "_", fmt.Sprintf("U%d", i+1))))
+				ind = append(ind, fmt.Sprintf("T%d", i+1))
+			}
+		}
+		toks := c["toks"].([]J)
+		goalOf := func(v []string) string {
+			if c["kind"] == "collect" {
+				op, form := toks[0].(string), toks[1].(string)
+				data := fmt.Sprintf("[1-%s, 2-%s, 3-other]", v[0], v[0])
+				switch form {
+				case "free":
+					return fmt.Sprintf("%s(X, member(X-L, %s), Xs)", op, data)
+				case "template":
+					return fmt.Sprintf("%s(L-X, member(X-L, %s), Xs)", op, data)
+				default:
+					return fmt.Sprintf("%s(X, L^member(X-L, %s), Xs)", op, data)
+				}
+			}
+			switch p := toks[0].(string); p {
+			case "compare":
+				return fmt.Sprintf("compare(O, %s, %s)", v[0], v[1])
+			case "==", "@<":
+				return fmt.Sprintf("(%s %s %s ; true)", v[0], p, v[1])
+			case "keysort":
+				return fmt.Sprintf("keysort([%s-1, %s-2, %s-3], R)", v[0], v[1], v[0])
+			case "setof":
+				return fmt.Sprintf("setof(E, member(E, [%s, %s, %s]), R)", v[0], v[1], v[0])
+			default:
+				return fmt.Sprintf("%s([%s, %s, %s], R)", p, v[0], v[1], v[0])
+			}
+		}
+		p := prolog.New(strings.NewReader(""), &strings.Builder{})
+		for variant, v := range [][]string{direct, ind} {
+			if variant == 0 && !ok {
+				continue
+			}
+			q := goalOf(v)
+			if variant == 1 {
+				q = strings.Join(pres, ", ") + ", " + q
+			}
+			fmt.Fprintf(os.Stderr, "CALL %s\n", q)
+			if o := callGoal(p, q+".", iso, toks[0].(string)); o.kind == "panic" || o.kind == "hang" || o.kind == "non_iso_error" {
+				return bad("?- "+q+".", o)
+			}
+		}
+		return map[string]J{"status": "ok", "input": "?- " + goalOf(direct) + "."}
+	}
 	// shapes
 	if robustPreds == nil {
 		loadPreds()
